@@ -354,13 +354,13 @@ func replayResubRound(c *RCase, a *attempts, o ro.Observable[any], base context.
 	var sub ro.Subscription
 	select {
 	case sub = <-done:
-	case <-time.After(lo.Ternary(c.Open, 1500*time.Millisecond, 10*time.Second)):
+	case <-time.After(lo.Ternary(c.Open, 4*time.Second, 10*time.Second)):
 		if c.Open {
 			// C14: the downstream completed on the value, yet the call that waits for the attempt inside the pipeline is still running
 			a.mu.Lock()
 			live := a.live
 			a.mu.Unlock()
-			add("blocked", fmt.Sprintf("downstream Take(1) completed on the first value of a never-ending attempt, but Subscribe is still running 1.5s later (%d attempt(s) still subscribed)", live))
+			add("blocked", fmt.Sprintf("downstream Take(1) completed on the first value of a never-ending attempt, but Subscribe is still running 4s later (%d attempt(s) still subscribed)", live))
 			return false
 		}
 		add("hang", "Subscribe did not return within 10s although every attempt ended")
